@@ -429,15 +429,24 @@ fn extra_process(id: &str, tier: Tier, seed: u64, scratch: &Path) -> (Value, Opt
     (json!({}), Some(Violation { key: "harness|extra_no_result".into(), detail: format!("the {} ended with {:?} and no result", what, status.code()), case: Value::Null, trace: vec![] }))
 }
 
+/// Whether the `fz_hist` campaign belongs to this run (history properties, thorough tier or
+/// VERIF_FUZZ set).
+pub fn hist_fuzz_wanted(id: &str, tier: Tier) -> bool {
+    crate::props::hist::FUZZ_PROPS.contains(&id) && (tier == Tier::Thorough || std::env::var("VERIF_FUZZ").is_ok())
+}
+
 /// `cfbverif extra <ID> <tier> <seed> <out>`: child side of `extra_process`.
 pub fn extra_main(def: &PropDef, tier: Tier, seed: u64, out: &Path) -> i32 {
-    let extra = match def.extra {
-        Some(x) => x,
-        None => return 2,
-    };
     let ctx = Ctx { id: def.id.to_string(), tier, seed, worker: 0, nworkers: 16, cases: 0, dump_index: None, dump_to: None };
     let mut ev = json!({"coverage": {}});
-    let viol = extra(&ctx, &mut ev);
+    let mut viol = match def.extra {
+        Some(extra) => extra(&ctx, &mut ev),
+        None => None,
+    };
+    // history properties: coverage-guided campaign over histories (thorough tier / VERIF_FUZZ)
+    if viol.is_none() && hist_fuzz_wanted(def.id, tier) {
+        viol = crate::fuzzrun::hist_campaign(&ctx, &mut ev, def.id);
+    }
     let v = json!({
         "coverage": ev["coverage"],
         "violation": viol.map(|v| json!({"key": v.key, "detail": v.detail, "case": v.case, "trace": v.trace})),
@@ -826,7 +835,7 @@ pub fn check_main(def: &PropDef, tier: Tier) -> i32 {
         "wall_s": 0.0,
         "violations": 0,
     });
-    if def.extra.is_some() {
+    if def.extra.is_some() || hist_fuzz_wanted(def.id, tier) {
         // the scenario step runs alone in a child process under a CPU limit far above its
         // normal cost (it is single-threaded and has no other watchdog)
         let (fields, viol) = extra_process(def.id, tier, seed, &scratch);
